@@ -48,13 +48,16 @@ API
   ctl.enabled()        : sorted enabled tids;   ctl.schedule : choices made so far.
   CoopCondition.waiter_tids() : tids sleeping on that condition, oldest first.
 
-    explore(run_once, key=None, max_runs=None, deadline=None, on_run=None, seed_order=None) -> ExploreStats
-  Depth-first enumeration of schedules.  run_once(choose, observe_hook) must build fresh objects, call
+    explore(run_once, key=None, max_runs=None, deadline=None, on_run=None, order=None) -> ExploreStats
+  Depth-first enumeration of schedules.  run_once(choose) must build fresh objects, call
   Controller.run with the given `choose`, and return the RunResult.  Without `key` EVERY interleaving is
   run.  With `key(ctl) -> hashable` (a canonical description of the complete state: shared variables +
   position of every thread + wait-queue order) a run is cut as soon as it reaches a state seen before, so
   every reachable state and every transition is still executed at least once, but not every path.
-  `on_run(res)` is called for every run (full or cut).  Use `replay(run_once, schedule)` to re-run one schedule.
+  `on_run(res)` is called for every run (full or cut); res.forced = number of leading choices that replayed a
+  prefix of an earlier run (everything before step res.forced - 1 was already seen); returning False stops the
+  enumeration.  ExploreStats: .runs .steps .states .complete (False if a budget or on_run cut it short) .by_status.
+  Use `replay(run_once, schedule)` to re-run one schedule.
   `with pinned_cpu():` around an exploration makes it ~5x faster (single-core hand-overs).
 """
 import threading
@@ -410,6 +413,7 @@ def explore(run_once, key=None, max_runs=None, deadline=None, on_run=None, order
             return alts[0]
 
         res = run_once(choose)
+        res.forced = len(prefix)        # the first `forced` choices replayed a prefix already seen in an earlier run
         st.runs += 1
         st.steps += len(res.schedule)
         st.by_status[res.status] = st.by_status.get(res.status, 0) + 1
